@@ -110,3 +110,30 @@ Proof.
   - destruct (IH _ _ _ H) as (H1 & H2 & H3 & H4). split; [assumption|]. split; [assumption|]. split; [lia|].
     intros k Hk. destruct (N.eq_dec k n0) as [->|Hne]; [lia|]. apply H4. lia.
 Qed.
+
+(** C19: contiguous codes are distinct, so lookup inverts the code assignment of every
+    enum without explicit discriminants after the first *)
+Lemma codes_from_lower vs : forall next c, no_explicit vs -> In c (codes_from next vs) -> next <= c.
+Proof.
+  induction vs as [|v vs IH]; intros next c Hn Hin; [inversion Hin|].
+  inversion Hn as [|? ? Hv Hvs]; subst. cbn [codes_from] in Hin. rewrite Hv in Hin.
+  destruct Hin as [<-|Hin]; [lia|]. apply IH in Hin; [lia|assumption].
+Qed.
+Lemma codes_from_nodup vs : forall next, no_explicit vs -> NoDup (codes_from next vs).
+Proof.
+  induction vs as [|v vs IH]; intros next Hn; [constructor|].
+  inversion Hn as [|? ? Hv Hvs]; subst. cbn [codes_from]. rewrite Hv. constructor.
+  - intros Hin. apply codes_from_lower in Hin; [lia|assumption].
+  - now apply IH.
+Qed.
+Theorem hashed_lookup_inverse d v vs i : no_explicit vs -> (i < S (length vs))%nat ->
+  lookup (codes (with_start d (v :: vs))) (d + N.of_nat i) = Some i.
+Proof.
+  intros Hn Hi. rewrite <- (hashed_codes_contiguous d v vs i Hn Hi).
+  apply lookup_complete.
+  - unfold codes. cbn [with_start codes_from v_disc]. constructor.
+    + intros Hin. apply codes_from_lower in Hin; [lia|assumption].
+    + now apply codes_from_nodup.
+  - unfold codes. cbn [with_start codes_from v_disc length]. rewrite codes_length. lia.
+Qed.
+
